@@ -663,6 +663,28 @@ def scripted_stream(ck, qr, numpy, m):
             ck.fail("raises:script:reentered-context-object", "raised %r" % (e,), inp)
         if not book_ok():
             ck.fail("script:reentered-context-object:bookkeeping", "bookkeeping not restored", inp); reset_book()
+    # ---- a state vector created inside a context: given in the context's basis, expressed in the original one after the context is left ------
+    from quantarhei import StateVector
+    for variant in ("data", "dim"):
+        c1 = SelfAdjointOperator(data=symm() + numpy.diag([0.0, 1.0, 2.5]))
+        inp = {"script": "StateVector(%s) created inside eigenbasis_of" % ("data=[0,1,0]" if variant == "data" else "dim=3, then data[1] = 1")}
+        ck.case(("script-statevector-created-inside", variant), nontrivial=True, kind="scripted", cls="StateVector", nesting=1)
+        try:
+            with eigenbasis_of(c1):
+                S = numpy.array(m.basis_transformations[-1], dtype=float)
+                if variant == "data":
+                    sv = StateVector(data=numpy.array([0.0, 1.0, 0.0]))
+                else:
+                    sv = StateVector(dim=N); sv.data[1] = 1.0
+                vin = numpy.array(sv.data).copy()
+            vout = numpy.array(sv._data)
+            if numpy.abs(vin - numpy.array([0.0, 1.0, 0.0])).max() > 1e-12 or numpy.abs(vout - S[:, 1]).max() > 1e-9 or sv.get_current_basis() != 0:
+                ck.fail("script:statevector-created-inside:restore", "a state vector created inside a context is not expressed in the original basis after the "
+                        "context was left", inp, numpy.real(vout).tolist(), S[:, 1].tolist())
+        except Exception as e:
+            ck.fail("raises:script:statevector-created-inside", "raised %r" % (e,), inp)
+        if not book_ok():
+            ck.fail("script:statevector-created-inside:bookkeeping", "bookkeeping not restored", inp); reset_book()
     # ---- whole-number data (an initial state written as 1 and 0): presented in the context's basis, trace one, restored ----------------------
     for variant in ("list of ints", "integer array"):
         c1 = SelfAdjointOperator(data=symm() + numpy.diag([0.0, 1.0, 2.5]))
